@@ -191,18 +191,19 @@ func (a *pwaligner) fillMatrix_SW() (err error) {
 	var match, fnew float64
 
 	// First row
+	bx := math.Inf(-1)
 	for j := 0; j < l2; j++ {
 		c1 = a.seq1.CharAt(0)
 		c2 = a.seq2.CharAt(j)
 		match = a.matchScore(c1, c2, indexseq1[0], indexseq2[j])
 		fnew = 0.0
 		if j > 0 {
-			fnew = a.matrix[0][j-1]
-			if a.trace[0][j-1] == ALIGN_LEFT {
-				fnew += a.gapextend
-			} else {
-				fnew += a.gapopen
-			}
+			// Best score of a gap in seq1 (ALIGN_LEFT) ending here: the gap ending on
+			// the left is extended, or a gap is opened after the cell on the left.
+			// (Deciding from the trace of the left cell alone forgets the gap that a
+			// better match has just overwritten, which may still be the best way on)
+			bx = math.Max(bx+a.gapextend, a.matrix[0][j-1]+a.gapopen)
+			fnew = bx
 		}
 		if match > fnew && match > .0 {
 			a.matrix[0][j] = match
@@ -227,6 +228,7 @@ func (a *pwaligner) fillMatrix_SW() (err error) {
 	}
 
 	// First column
+	ma := math.Inf(-1)
 	for i := 0; i < l1; i++ {
 		c1 = a.seq1.CharAt(i)
 		c2 = a.seq2.CharAt(0)
@@ -234,12 +236,9 @@ func (a *pwaligner) fillMatrix_SW() (err error) {
 
 		fnew = 0.0
 		if i > 0 {
-			fnew = a.matrix[i-1][0]
-			if a.trace[i-1][0] == ALIGN_UP {
-				fnew += a.gapextend
-			} else {
-				fnew += a.gapopen
-			}
+			// Best score of a gap in seq2 (ALIGN_UP) ending here (same rule as in the first row)
+			ma = math.Max(ma+a.gapextend, a.matrix[i-1][0]+a.gapopen)
+			fnew = ma
 		}
 		if match > fnew && match > .0 {
 			a.matrix[i][0] = match
